@@ -32,19 +32,26 @@ class ConsistencyError(Exception):
 
 
 class PathEntry:
-    __slots__ = ("kind", "term", "outcome", "where", "forced")
+    __slots__ = ("kind", "term", "outcome", "where", "forced", "strong")
 
-    def __init__(self, kind, term, outcome, where):
-        self.kind = kind  # 'branch' | 'concretize' | 'assume'
+    def __init__(self, kind, term, outcome, where, strong=None):
+        self.kind = kind  # 'branch' | 'concretize' | 'assume' | 'cell'
         self.term = term
         self.outcome = outcome
         self.where = where
         self.forced = None
+        self.strong = strong  # stronger positive form (exact equality for allclose)
 
     def as_term(self) -> T:
-        if self.kind == "branch" or self.kind == "assume":
+        if self.kind in ("branch", "assume", "cell"):
             return self.term if self.outcome else tm.not_(self.term)
         return tm.eq(self.term, tm.const(self.outcome))
+
+    def flipped(self) -> T:
+        """Condition of the other side of this branch (allclose -> exact equality)."""
+        if self.outcome:
+            return tm.not_(self.term)
+        return self.strong if self.strong is not None else self.term
 
 
 def _where() -> str:
@@ -74,7 +81,55 @@ def _deepali_frames(limit=6) -> List[str]:
     return out
 
 
+class SymFloat(float):
+    """Python float that remembers the term it was concretised from (for stubs at C boundaries)."""
+
+    def __new__(cls, value, term):
+        o = float.__new__(cls, value)
+        o.term = term
+        return o
+
+
+class SymInt(int):
+    def __new__(cls, value, term):
+        o = int.__new__(cls, value)
+        o.term = term
+        return o
+
+
+_ORIG_TOLIST = torch.Tensor.tolist
+
+
 class Engine(TorchDispatchMode):
+    def __enter__(self):
+        eng = self
+
+        def tolist(t):
+            vals = _ORIG_TOLIST(t)
+            if eng._suspend or not eng.has(t):
+                return vals
+            terms = eng.terms(t)
+
+            def wrap(v, tt):
+                if isinstance(v, list):
+                    return [wrap(x, y) for x, y in zip(v, tt)]
+                if tt.op in ("c", "true", "false") or isinstance(v, bool):
+                    if not isinstance(v, bool) or tt.op in ("true", "false"):
+                        return v
+                eng.concretize(tt, v)
+                if isinstance(v, bool):
+                    return v
+                return SymFloat(v, tt) if isinstance(v, float) else SymInt(v, tt)
+
+            return wrap(vals, terms if terms.ndim else terms[()])
+
+        torch.Tensor.tolist = tolist
+        return super().__enter__()
+
+    def __exit__(self, *a):
+        torch.Tensor.tolist = _ORIG_TOLIST
+        return super().__exit__(*a)
+
     def __init__(self, check: bool = True, check_tol: float = 2e-4):
         super().__init__()
         self.shadow: Dict[int, Any] = {}
@@ -285,11 +340,11 @@ class Engine(TorchDispatchMode):
         self.checked += n
 
     # ------------------------------------------------------------------ path condition
-    def branch(self, term: T, outcome: bool, kind: str = "branch") -> None:
+    def branch(self, term: T, outcome: bool, kind: str = "branch", strong: Optional[T] = None) -> None:
         term = tm.boo(term)
         if term is tm.TRUE or term is tm.FALSE:
             return
-        self.pc.append(PathEntry(kind, term, bool(outcome), _where()))
+        self.pc.append(PathEntry(kind, term, bool(outcome), _where(), strong))
 
     def concretize(self, term: T, value) -> None:
         if term.op in ("c", "true", "false"):
